@@ -117,12 +117,829 @@ theorem sn_removeAll_cases (fs : FS) (path : Str) :
     split
     · exact Or.inl rfl
     · rename_i hne
-      exact Or.inr ⟨p, rfl, hne, rfl⟩
+      exact Or.inr ⟨p, hp, hne, rfl⟩
   · exact Or.inl rfl
 
 theorem snSub_removeAll (fs : FS) (path : Str) : SnSub (fs.removeAll path) fs := by
   rcases sn_removeAll_cases fs path with e | ⟨p, _, _, e⟩
   · rw [e]; exact SnSub.refl _
   · rw [e]; exact snSub_delTree fs p
+
+/-! ## the callback in normal form -/
+
+def snIsDir : Node → Bool
+  | .dir _ _ => true
+  | _ => false
+
+/-- the containment and kind check of `packagePrepareWalkFn`: both the root and the visited path are
+resolved physically in the current state -/
+def snCheck (fs : FS) (root rel : Str) : SRes :=
+  match fs.evalSymlinks root with
+  | none => .fail
+  | some absRoot =>
+    match fs.evalSymlinks (pathJoin (ofSegs absRoot) rel) with
+    | none => .fail
+    | some real =>
+      if !(absRoot.isPrefixOf real) then .fail
+      else
+        match fs.lookup real with
+        | some (.file _ _ _) => .cont
+        | some (.dir _ _) => .cont
+        | _ => .fail
+
+theorem prepVisit_eq (rules : List Rule) (root : Str) (fs : FS) (absPath : Str) (node : Node) :
+    prepVisit rules root fs absPath node =
+      match pathRel root absPath with
+      | none => (fs, .fail)
+      | some rel =>
+        if rel = dot then (fs, .cont)
+        else if (excludes rules rel).1 then (fs.removeAll absPath, .cont)
+        else if snIsDir node && (excludes rules (rel ++ ['/'])).1 then (fs.removeAll absPath, .skipDir)
+        else (fs, snCheck fs root rel) := by
+  unfold prepVisit
+  cases hrel : pathRel root absPath with
+  | none => rfl
+  | some rel =>
+    simp only
+    by_cases h1 : rel = dot
+    · simp only [h1, if_true]
+    · simp only [h1, if_false]
+      cases h2 : (excludes rules rel).1 with
+      | true => simp only [if_true]
+      | false =>
+        simp only [Bool.false_eq_true, if_false]
+        have tail : (match fs.evalSymlinks root with
+            | none => (fs, SRes.fail)
+            | some absRoot =>
+              match fs.evalSymlinks (pathJoin ('/' :: joinWith '/' absRoot) rel) with
+              | none => (fs, SRes.fail)
+              | some real =>
+                if (!List.isPrefixOf absRoot real) = true then (fs, SRes.fail)
+                else
+                  match fs.lookup real with
+                  | some (Node.file _ _ _) => (fs, SRes.cont)
+                  | some (Node.dir _ _) => (fs, SRes.cont)
+                  | _ => (fs, SRes.fail)) = (fs, snCheck fs root rel) := by
+          unfold snCheck ofSegs
+          cases fs.evalSymlinks root with
+          | none => rfl
+          | some absRoot =>
+            simp only
+            cases fs.evalSymlinks (pathJoin ('/' :: joinWith '/' absRoot) rel) with
+            | none => rfl
+            | some real =>
+              simp only
+              cases h4 : (!(absRoot.isPrefixOf real)) with
+              | true => simp only [if_true]
+              | false =>
+                simp only [Bool.false_eq_true, if_false]
+                cases fs.lookup real with
+                | none => rfl
+                | some n => cases n <;> rfl
+        cases node with
+        | dir pm mt =>
+          simp only [snIsDir, Bool.true_and]
+          cases (excludes rules (rel ++ ['/'])).1 with
+          | true => simp only [if_true]
+          | false => simp only [Bool.false_eq_true, if_false]; exact tail
+        | file pm mt c => simp only [snIsDir, Bool.false_and, Bool.false_eq_true, if_false]; exact tail
+        | link t => simp only [snIsDir, Bool.false_and, Bool.false_eq_true, if_false]; exact tail
+        | special => simp only [snIsDir, Bool.false_and, Bool.false_eq_true, if_false]; exact tail
+
+/-- the callback either leaves the filesystem alone or removes the visited path -/
+theorem prepVisit_fst_cases (rules : List Rule) (root : Str) (fs : FS) (absPath : Str) (node : Node) :
+    (prepVisit rules root fs absPath node).1 = fs ∨
+    (prepVisit rules root fs absPath node).1 = fs.removeAll absPath := by
+  rw [prepVisit_eq]
+  split
+  · exact Or.inl rfl
+  · split
+    · exact Or.inl rfl
+    · split
+      · exact Or.inr rfl
+      · split
+        · exact Or.inr rfl
+        · exact Or.inl rfl
+
+theorem snSub_prepVisit (rules : List Rule) (root : Str) (fs : FS) (absPath : Str) (node : Node) :
+    SnSub (prepVisit rules root fs absPath node).1 fs := by
+  rcases prepVisit_fst_cases rules root fs absPath node with e | e
+  · rw [e]; exact SnSub.refl _
+  · rw [e]; exact snSub_removeAll _ _
+
+/-! ## the walk only deletes -/
+
+theorem snSub_walk (rules : List Rule) (root : Str) :
+    ∀ fuel : Nat,
+      (∀ fs path node, SnSub (prepWalk rules root fuel fs path node).1 fs) ∧
+      (∀ fs path names, SnSub (prepChildren rules root fuel fs path names).1 fs) := by
+  intro fuel
+  induction fuel with
+  | zero =>
+    refine ⟨?_, ?_⟩
+    · intro fs path node; rw [prepWalk]; exact SnSub.refl _
+    · intro fs path names; rw [prepChildren]; exact SnSub.refl _
+  | succ fuel ih =>
+    obtain ⟨ihW, ihC⟩ := ih
+    refine ⟨?_, ?_⟩
+    · intro fs path node
+      have hv := snSub_prepVisit rules root fs path node
+      cases node with
+      | dir pm mt =>
+        rw [prepWalk]
+        simp only
+        split
+        · exact hv.trans (ihC _ _ _)
+        · exact hv
+      | file pm mt c => rw [prepWalk]; exact hv; intro _ _ h; cases h
+      | link t => rw [prepWalk]; exact hv; intro _ _ h; cases h
+      | special => rw [prepWalk]; exact hv; intro _ _ h; cases h
+    · intro fs path names
+      cases names with
+      | nil => rw [prepChildren]; exact SnSub.refl _
+      | cons name rest =>
+        rw [prepChildren]
+        simp only
+        split
+        · exact SnSub.refl _
+        · rename_i child hc
+          have hn := ihW fs (pathJoin path name) child
+          split
+          · exact hn.trans (ihC _ _ _)
+          · split
+            · exact hn.trans (ihC _ _ _)
+            · exact hn
+          · exact hn
+
+/-! ## paths handed to the callback -/
+
+/-- `path` is an absolute clean path at or below `W` and no proper prefix of it is a link: `Lstat`
+and `RemoveAll` act at the physical location `pathSegs path` -/
+structure SanAt (W : PPath) (fs : FS) (path : Str) : Prop where
+  clean : AbsClean path
+  under : W <+: pathSegs path
+  nolink : ∀ q, q <+: pathSegs path → q ≠ pathSegs path → ∀ t, fs.lookup q ≠ some (.link t)
+
+/-- the components of every key at or below `W` are names a directory entry can have -/
+def SanNames (W : PPath) (fs : FS) : Prop :=
+  ∀ k n, fs.get k = some n → W <+: k → ∀ x ∈ k, NameNS x
+
+theorem SanNames.sub {W : PPath} {fs fs' : FS} (h : SanNames W fs) (hs : SnSub fs' fs) : SanNames W fs' :=
+  fun k n hk hu => h k n (hs.get_some hk) hu
+
+theorem SanAt.sub {W : PPath} {fs fs' : FS} {path : Str} (h : SanAt W fs path) (hs : SnSub fs' fs) :
+    SanAt W fs' path :=
+  ⟨h.clean, h.under, fun q h1 h2 t hl => h.nolink q h1 h2 t (hs.lookup_some hl)⟩
+
+theorem sn_notLink_sub {fs fs' : FS} (hs : SnSub fs' fs) {q : PPath} (h : ∀ t, fs.lookup q ≠ some (.link t)) :
+    ∀ t, fs'.lookup q ≠ some (.link t) := fun t hl => h t (hs.lookup_some hl)
+
+theorem SanAt.between {W : PPath} {fs : FS} {path : Str} (h : SanAt W fs path) :
+    NoLinkBetween fs [] (pathSegs path) := by
+  intro q _ h2 h3 h4 t hg
+  rw [List.nil_append] at h3 h4
+  apply h.nolink q h3 h4 t
+  rw [lookup_ne_nil fs q h2]; exact hg
+
+theorem SanAt.resolve_false {W : PPath} {fs : FS} {path : Str} (h : SanAt W fs path) {p : PPath}
+    (hr : fs.resolvePath path false = .ok p) : p = pathSegs path := by
+  unfold FS.resolvePath at hr
+  have := resolve_nolink fs _ [] _ p (absClean_no_dotdot h.clean) h.between hr
+  simpa using this
+
+/-- with no link on the way, the final component included, following the final link or not makes no
+difference -/
+theorem sn_resolve_plain (fs : FS) : ∀ (fuel : Nat) (cur : PPath) (segs : List Seg),
+    (∀ x ∈ segs, x ≠ dotdot) →
+    (∀ q, cur <+: q → q ≠ cur → q <+: cur ++ segs → ∀ t, fs.lookup q ≠ some (.link t)) →
+    resolve fs fuel cur segs true = resolve fs fuel cur segs false := by
+  intro fuel
+  induction fuel with
+  | zero => intro cur segs _ _; simp [resolve]
+  | succ fuel ih =>
+    intro cur segs hn hnl
+    cases segs with
+    | nil => simp [resolve]
+    | cons s rest =>
+      have hs : s ≠ dotdot := hn s (by simp)
+      have hassoc : cur ++ s :: rest = (cur ++ [s]) ++ rest := by simp
+      rw [resolve, resolve, if_neg hs, if_neg hs]
+      simp only
+      cases hl : fs.lookup (cur ++ [s]) with
+      | none => rfl
+      | some n =>
+        cases n with
+        | dir pm mt =>
+          simp only
+          apply ih _ _ (fun x hx => hn x (List.mem_cons_of_mem _ hx))
+          intro q h1 h2 h3 t
+          apply hnl q (List.IsPrefix.trans (List.prefix_append _ _) h1)
+          · intro e
+            rw [e] at h1
+            have := List.IsPrefix.length_le h1
+            simp only [List.length_append, List.length_cons, List.length_nil] at this
+            omega
+          · rw [hassoc]; exact h3
+        | file pm mt c => rfl
+        | special => rfl
+        | link t =>
+          exfalso
+          refine hnl (cur ++ [s]) (List.prefix_append _ _) ?_ ?_ t hl
+          · intro e
+            have := congrArg List.length e
+            simp only [List.length_append, List.length_cons, List.length_nil] at this
+            omega
+          · rw [hassoc]; exact List.prefix_append _ _
+
+/-- a path as in `SanAt` whose last component is not a link either resolves the same way in both
+modes -/
+theorem SanAt.resolve_eq {W : PPath} {fs : FS} {path : Str} (h : SanAt W fs path)
+    (hl : ∀ t, fs.lookup (pathSegs path) ≠ some (.link t)) :
+    fs.resolvePath path true = fs.resolvePath path false := by
+  unfold FS.resolvePath
+  apply sn_resolve_plain fs _ _ _ (absClean_no_dotdot h.clean)
+  intro q _ _ h3 t
+  rw [List.nil_append] at h3
+  by_cases he : q = pathSegs path
+  · rw [he]; exact hl t
+  · exact h.nolink q h3 he t
+
+theorem SanAt.lstat {W : PPath} {fs : FS} {path : Str} (h : SanAt W fs path) {n : Node}
+    (hl : fs.lstat path = .ok n) :
+    fs.resolvePath path false = .ok (pathSegs path) ∧ fs.lookup (pathSegs path) = some n := by
+  obtain ⟨p, hp, hn⟩ := lstat_ok hl
+  have := h.resolve_false hp
+  subst this
+  exact ⟨hp, hn⟩
+
+/-! ## directory listings -/
+
+theorem sn_mem_dedup {α β : Type} [BEq β] [LawfulBEq β] (f : α → β) (l : List α) :
+    ∀ (init : List β) (y : β),
+      y ∈ l.foldl (fun acc e => if acc.contains (f e) then acc else acc ++ [f e]) init ↔
+        y ∈ init ∨ ∃ e ∈ l, f e = y := by
+  induction l with
+  | nil => intro init y; simp
+  | cons a l ih =>
+    intro init y
+    rw [List.foldl_cons, ih]
+    by_cases hc : init.contains (f a) = true
+    · simp only [hc, if_true]
+      constructor
+      · rintro (h | ⟨e, he, hf⟩)
+        · exact Or.inl h
+        · exact Or.inr ⟨e, List.mem_cons_of_mem _ he, hf⟩
+      · rintro (h | ⟨e, he, hf⟩)
+        · exact Or.inl h
+        · rcases List.mem_cons.mp he with rfl | he
+          · left; rw [← hf]; exact List.contains_iff_mem.mp hc |> fun h => by simpa using h
+          · exact Or.inr ⟨e, he, hf⟩
+    · simp only [hc]
+      constructor
+      · rintro (h | ⟨e, he, hf⟩)
+        · rcases List.mem_append.mp h with h | h
+          · exact Or.inl h
+          · simp only [List.mem_singleton] at h
+            exact Or.inr ⟨a, by simp, h.symm⟩
+        · exact Or.inr ⟨e, List.mem_cons_of_mem _ he, hf⟩
+      · rintro (h | ⟨e, he, hf⟩)
+        · exact Or.inl (List.mem_append_left _ h)
+        · rcases List.mem_cons.mp he with rfl | he
+          · left; rw [← hf]; simp
+          · exact Or.inr ⟨e, he, hf⟩
+
+theorem sn_mem_insertSorted (x y : Str) (l : List Str) : y ∈ insertSorted x l ↔ y = x ∨ y ∈ l := by
+  induction l with
+  | nil => simp [insertSorted]
+  | cons a l ih =>
+    unfold insertSorted
+    split
+    · simp
+    · simp only [List.mem_cons, ih]
+      constructor
+      · rintro (h | h | h)
+        · exact Or.inr (Or.inl h)
+        · exact Or.inl h
+        · exact Or.inr (Or.inr h)
+      · rintro (h | h | h)
+        · exact Or.inr (Or.inl h)
+        · exact Or.inl h
+        · exact Or.inr (Or.inr h)
+
+theorem sn_mem_sorted (l : List Str) (y : Str) : y ∈ l.foldr insertSorted [] ↔ y ∈ l := by
+  induction l with
+  | nil => simp
+  | cons a l ih => rw [List.foldr_cons, sn_mem_insertSorted, ih]; simp
+
+/-- `readdir` lists exactly the names bound directly below `p` -/
+theorem sn_mem_readdir (fs : FS) (p : PPath) (name : Str) :
+    name ∈ fs.readdir p ↔ (fs.get (p ++ [name])).isSome = true := by
+  unfold FS.readdir
+  rw [sn_mem_sorted]
+  have := sn_mem_dedup (fun x : Str => x)
+    (fs.filterMap fun e => if e.1.dropLast = p ∧ e.1 ≠ [] ∧ (fs.get e.1).isSome then e.1.getLast? else none)
+    [] name
+  rw [this]
+  simp only [List.not_mem_nil, false_or, List.mem_filterMap, exists_eq_right]
+  constructor
+  · rintro ⟨e, _, he⟩
+    split at he
+    · rename_i hc
+      obtain ⟨h1, _, h3⟩ := hc
+      obtain ⟨ys, hys⟩ := List.getLast?_eq_some_iff.mp he
+      rw [hys, List.dropLast_concat] at h1
+      rw [← h1, ← hys]; exact h3
+    · cases he
+  · intro h
+    cases hg : fs.get (p ++ [name]) with
+    | none => rw [hg] at h; cases h
+    | some n =>
+      refine ⟨(p ++ [name], n), get_mem hg, ?_⟩
+      simp [hg]
+
+/-! ## `SnStep`: only bindings at or below `W` are removed -/
+
+structure SnStep (W : PPath) (fs fs' : FS) : Prop where
+  shrink : ∀ q, fs'.get q = fs.get q ∨ (W <+: q ∧ fs'.get q = none)
+  keys : KeysPhysical fs → KeysPhysical fs'
+
+theorem SnStep.refl (W : PPath) (fs : FS) : SnStep W fs fs := ⟨fun _ => Or.inl rfl, fun h => h⟩
+
+theorem SnStep.trans {W : PPath} {a b c : FS} (h1 : SnStep W a b) (h2 : SnStep W b c) : SnStep W a c := by
+  refine ⟨?_, fun h => h2.keys (h1.keys h)⟩
+  intro q
+  rcases h2.shrink q with e | e
+  · rcases h1.shrink q with e' | ⟨hu, e'⟩
+    · exact Or.inl (e.trans e')
+    · exact Or.inr ⟨hu, e.trans e'⟩
+  · exact Or.inr e
+
+theorem SnStep.sub {W : PPath} {fs fs' : FS} (h : SnStep W fs fs') : SnSub fs' fs := by
+  intro q
+  rcases h.shrink q with e | ⟨_, e⟩
+  · exact Or.inl e
+  · exact Or.inr e
+
+theorem SnStep.frame {W : PPath} {fs fs' : FS} (h : SnStep W fs fs') (q : PPath) (hq : ¬ W <+: q) :
+    fs'.get q = fs.get q := by
+  rcases h.shrink q with e | ⟨hu, _⟩
+  · exact e
+  · exact absurd hu hq
+
+theorem snStep_delTree (W : PPath) (fs : FS) (p : PPath) (hu : W <+: p) : SnStep W fs (fs.delTree p) := by
+  refine ⟨?_, ?_⟩
+  · intro q
+    rw [sn_get_delTree]
+    split
+    · rename_i hp
+      exact Or.inr ⟨List.IsPrefix.trans hu hp, rfl⟩
+    · exact Or.inl rfl
+  · intro hk k n hg
+    rw [sn_get_delTree] at hg
+    split at hg
+    · cases hg
+    · rename_i hp
+      obtain ⟨h1, pm, mt, h2⟩ := hk k n hg
+      refine ⟨h1, ?_⟩
+      by_cases h0 : k.dropLast = []
+      · exact ⟨0o755, 0, by simp [FS.lookup, h0]⟩
+      · refine ⟨pm, mt, ?_⟩
+        rw [lookup_ne_nil _ _ h0] at h2 ⊢
+        rw [sn_get_delTree, if_neg]
+        · exact h2
+        · intro hpd
+          exact hp (List.IsPrefix.trans hpd (List.dropLast_prefix k))
+
+theorem snStep_removeAll {W : PPath} {fs : FS} {path : Str} (h : SanAt W fs path) :
+    SnStep W fs (fs.removeAll path) := by
+  rcases sn_removeAll_cases fs path with e | ⟨p, hp, _, e⟩
+  · rw [e]; exact SnStep.refl _ _
+  · rw [e]
+    have := h.resolve_false hp
+    subst this
+    exact snStep_delTree W fs _ h.under
+
+theorem snStep_prepVisit (rules : List Rule) (root : Str) {W : PPath} {fs : FS} {path : Str} (node : Node)
+    (h : SanAt W fs path) : SnStep W fs (prepVisit rules root fs path node).1 := by
+  rcases prepVisit_fst_cases rules root fs path node with e | e
+  · rw [e]; exact SnStep.refl _ _
+  · rw [e]; exact snStep_removeAll h
+
+/-- the child `path/name` of a walked directory -/
+theorem sanAt_child {W : PPath} {fs : FS} {path : Str} (h : SanAt W fs path)
+    (hl : ∀ t, fs.lookup (pathSegs path) ≠ some (.link t)) {name : Str} (hn : NameNS name) :
+    SanAt W fs (pathJoin path name) ∧ pathSegs (pathJoin path name) = pathSegs path ++ [name] := by
+  have hsegs := pathSegs_pathJoin_name path name h.clean hn
+  refine ⟨⟨pathJoin_absClean path name h.clean.1, ?_, ?_⟩, hsegs⟩
+  · rw [hsegs]; exact List.IsPrefix.trans h.under (List.prefix_append _ _)
+  · rw [hsegs]
+    intro q h1 h2 t
+    have h3 := prefix_of_lt_concat h1 h2
+    by_cases he : q = pathSegs path
+    · rw [he]; exact hl t
+    · exact h.nolink q h3 he t
+
+/-- the names `filepath.Walk` reads in a directory it found by `Lstat` -/
+theorem sn_walk_names {W : PPath} {fs : FS} {path : Str} (hN : SanNames W fs) (h : SanAt W fs path)
+    {pm : Nat} {mt : Int} (hl : fs.lstat path = .ok (.dir pm mt)) :
+    fs.resolvePath path true = .ok (pathSegs path) ∧
+    (∀ n ∈ fs.readdir (pathSegs path), NameNS n) ∧
+    (∀ t, fs.lookup (pathSegs path) ≠ some (.link t)) := by
+  obtain ⟨hr, hlk⟩ := h.lstat hl
+  have hnl : ∀ t, fs.lookup (pathSegs path) ≠ some (.link t) := by
+    intro t ht; rw [hlk] at ht; cases ht
+  refine ⟨?_, ?_, hnl⟩
+  · rw [h.resolve_eq hnl, hr]
+  · intro n hn
+    rw [sn_mem_readdir] at hn
+    cases hg : fs.get (pathSegs path ++ [n]) with
+    | none => rw [hg] at hn; cases hn
+    | some m =>
+      exact hN _ m hg (List.IsPrefix.trans h.under (List.prefix_append _ _)) n (by simp)
+
+/-! ## the walk changes nothing outside the work directory -/
+
+theorem snStep_walk (rules : List Rule) (root : Str) (W : PPath) :
+    ∀ fuel : Nat,
+      (∀ fs path node, SanNames W fs → SanAt W fs path → fs.lstat path = .ok node →
+        SnStep W fs (prepWalk rules root fuel fs path node).1) ∧
+      (∀ fs path names, SanNames W fs → SanAt W fs path →
+        (∀ t, fs.lookup (pathSegs path) ≠ some (.link t)) → (∀ n ∈ names, NameNS n) →
+        SnStep W fs (prepChildren rules root fuel fs path names).1) := by
+  intro fuel
+  induction fuel with
+  | zero =>
+    refine ⟨?_, ?_⟩
+    · intro fs path node _ _ _; rw [prepWalk]; exact SnStep.refl _ _
+    · intro fs path names _ _ _ _; rw [prepChildren]; exact SnStep.refl _ _
+  | succ fuel ih =>
+    obtain ⟨ihW, ihC⟩ := ih
+    refine ⟨?_, ?_⟩
+    · intro fs path node hN hA hl
+      have hv := snStep_prepVisit rules root node hA
+      cases node with
+      | dir pm mt =>
+        obtain ⟨hnames, hns, hnl⟩ := sn_walk_names hN hA hl
+        rw [prepWalk]
+        simp only [hnames]
+        split
+        · exact hv.trans (ihC _ _ _ (hN.sub hv.sub) (hA.sub hv.sub) (sn_notLink_sub hv.sub hnl) hns)
+        · exact hv
+      | file pm mt c => rw [prepWalk]; exact hv; intro _ _ h; cases h
+      | link t => rw [prepWalk]; exact hv; intro _ _ h; cases h
+      | special => rw [prepWalk]; exact hv; intro _ _ h; cases h
+    · intro fs path names hN hA hnl hns
+      cases names with
+      | nil => rw [prepChildren]; exact SnStep.refl _ _
+      | cons name rest =>
+        rw [prepChildren]
+        simp only
+        split
+        · exact SnStep.refl _ _
+        · rename_i child hc
+          obtain ⟨hA', _⟩ := sanAt_child hA hnl (hns name (by simp))
+          have hn := ihW fs (pathJoin path name) child hN hA' hc
+          have hrest : ∀ n ∈ rest, NameNS n := fun n hn => hns n (List.mem_cons_of_mem _ hn)
+          have hgo := ihC _ path rest (hN.sub hn.sub) (hA.sub hn.sub) (sn_notLink_sub hn.sub hnl) hrest
+          split
+          · exact hn.trans hgo
+          · split
+            · exact hn.trans hgo
+            · exact hn
+          · exact hn
+
+/-- the work directory itself: its components are real directories -/
+theorem sanAt_root {fs : FS} {work : Str} (hc : AbsClean work) (hreal : RealDir fs (pathSegs work)) :
+    SanAt (pathSegs work) fs work := by
+  refine ⟨hc, List.prefix_refl _, ?_⟩
+  intro q hq _ t hl
+  obtain ⟨a, b, h⟩ := hreal q hq
+  rw [h] at hl; cases hl
+
+theorem sn_root_notLink {fs : FS} {W : PPath} (hreal : RealDir fs W) : ∀ t, fs.lookup W ≠ some (.link t) := by
+  intro t hl
+  obtain ⟨a, b, h⟩ := hreal W (List.prefix_refl _)
+  rw [h] at hl; cases hl
+
+/-! ## `hashable` -/
+
+theorem sn_mem_filesBelow (fs : FS) (p k : PPath) :
+    k ∈ fs.filesBelow p ↔ p <+: k ∧ k ≠ p ∧ ∃ n, fs.get k = some n ∧ ∀ a b, n ≠ .dir a b := by
+  unfold FS.filesBelow
+  simp only [List.mem_filter]
+  have hkeys := sn_mem_dedup (fun e : PPath × Node => e.1) fs [] k
+  rw [hkeys]
+  simp only [List.not_mem_nil, false_or, Bool.and_eq_true, decide_eq_true_eq, List.isPrefixOf_iff_prefix]
+  constructor
+  · rintro ⟨_, ⟨h1, h2⟩, h3⟩
+    refine ⟨h1, h2, ?_⟩
+    cases hg : fs.get k with
+    | none => rw [hg] at h3; cases h3
+    | some n =>
+      refine ⟨n, rfl, ?_⟩
+      intro a b e
+      subst e
+      rw [hg] at h3; cases h3
+  · rintro ⟨h1, h2, n, hg, hn⟩
+    refine ⟨⟨(k, n), get_mem hg, rfl⟩, ⟨h1, h2⟩, ?_⟩
+    rw [hg]
+    cases n with
+    | dir a b => exact absurd rfl (hn a b)
+    | file a b c => rfl
+    | link t => rfl
+    | special => rfl
+
+/-- a successful hash has opened and read every non-directory below `dir` -/
+theorem sn_hashable {fs : FS} {dir : PPath} (h : hashable fs dir = true) :
+    ∀ k n, fs.get k = some n → dir <+: k → k ≠ dir → (∀ a b, n ≠ .dir a b) →
+      ∃ c, fs.readFile (ofSegs k) = .ok c := by
+  intro k n hg hu hne hn
+  unfold hashable at h
+  rw [List.all_eq_true] at h
+  have := h k ((sn_mem_filesBelow fs dir k).mpr ⟨hu, hne, n, hg, hn⟩)
+  unfold ofSegs
+  cases hr : fs.readFile ('/' :: joinWith '/' k) with
+  | ok c => exact ⟨c, rfl⟩
+  | error e => rw [hr] at this; cases this
+
+theorem sn_readFile_ok {fs : FS} {path c : Str} (h : fs.readFile path = .ok c) :
+    ∃ p pm mt, fs.resolvePath path true = .ok p ∧ fs.lookup p = some (.file pm mt c) := by
+  unfold FS.readFile at h
+  split at h
+  · rename_i p pm mt c' hs
+    cases h
+    obtain ⟨h1, h2⟩ := stat_ok hs
+    exact ⟨p, pm, mt, h1, h2⟩
+  · cases h
+  · cases h
+  · cases h
+
+theorem sn_evalSymlinks_of_resolve {fs : FS} {path : Str} {p : PPath} {n : Node}
+    (h1 : fs.resolvePath path true = .ok p) (h2 : fs.lookup p = some n) : fs.evalSymlinks path = some p := by
+  unfold FS.evalSymlinks
+  rw [h1]; simp [h2]
+
+theorem sn_evalSymlinks_some {fs : FS} {path : Str} {p : PPath} (h : fs.evalSymlinks path = some p) :
+    fs.resolvePath path true = .ok p ∧ ∃ n, fs.lookup p = some n := by
+  unfold FS.evalSymlinks at h
+  split at h
+  · rename_i q hq
+    split at h
+    · rename_i hs
+      cases h
+      cases hl : fs.lookup p with
+      | none => rw [hl] at hs; cases hs
+      | some n => exact ⟨hq, n, rfl⟩
+    · cases h
+  · cases h
+
+/-! ## `renameDir` -/
+
+/-- what `renameDir` does to one binding -/
+def snRekey (src dst : PPath) (e : PPath × Node) : PPath × Node :=
+  if src.isPrefixOf e.1 then (dst ++ e.1.drop src.length, e.2) else e
+
+theorem sn_filterMap_map {α β : Type} (f : α → Option β) (g : α → β) (l : List α)
+    (h : ∀ e ∈ l, f e = some (g e)) : l.filterMap f = l.map g := by
+  induction l with
+  | nil => rfl
+  | cons a l ih =>
+    rw [List.filterMap_cons, h a (by simp), List.map_cons, ih (fun e he => h e (List.mem_cons_of_mem _ he))]
+
+theorem sn_renameDir_eq (fs : FS) (src dst : PPath) : fs.renameDir src dst = fs.map (snRekey src dst) := by
+  unfold FS.renameDir
+  apply sn_filterMap_map
+  intro e he
+  obtain ⟨k, n⟩ := e
+  have := sn_mem_get_isSome he
+  cases hg : fs.get k with
+  | none => rw [hg] at this; cases this
+  | some m =>
+    simp only [Option.isNone_some, Bool.false_eq_true, if_false, snRekey]
+    split <;> rfl
+
+theorem sn_snRekey_key (src dst : PPath) (e : PPath × Node) :
+    (¬ src <+: e.1 ∧ snRekey src dst e = e) ∨
+    (∃ x, e.1 = src ++ x ∧ snRekey src dst e = (dst ++ x, e.2)) := by
+  unfold snRekey
+  by_cases h : src <+: e.1
+  · right
+    obtain ⟨x, hx⟩ := h
+    refine ⟨x, hx.symm, ?_⟩
+    have : src.isPrefixOf e.1 = true := List.isPrefixOf_iff_prefix.mpr ⟨x, hx⟩
+    rw [if_pos this, ← hx]
+    simp
+  · left
+    refine ⟨h, ?_⟩
+    have : ¬ src.isPrefixOf e.1 = true := fun hb => h (List.isPrefixOf_iff_prefix.mp hb)
+    rw [if_neg this]
+
+theorem sn_get_map (g : PPath × Node → PPath × Node) (fs : FS) (q : PPath) :
+    FS.get (fs.map g) q = none ↔ ∀ e ∈ fs, (g e).1 ≠ q := by
+  rw [sn_get_eq_none]
+  simp only [List.mem_map, forall_exists_index, and_imp, forall_apply_eq_imp_iff₂]
+
+/-- nothing outside the source and the destination changes -/
+theorem sn_renameDir_frame (fs : FS) (src dst q : PPath) (h1 : ¬ src <+: q) (h2 : ¬ dst <+: q) :
+    (fs.renameDir src dst).get q = fs.get q := by
+  rw [sn_renameDir_eq]
+  induction fs with
+  | nil => rfl
+  | cons e r ih =>
+    rw [List.map_cons]
+    rcases sn_snRekey_key src dst e with ⟨_, he⟩ | ⟨x, hx, he⟩
+    · rw [he]
+      obtain ⟨k, n⟩ := e
+      rw [sn_get_cons, sn_get_cons, ih]
+    · rw [he]
+      obtain ⟨k, n⟩ := e
+      simp only at hx
+      rw [sn_get_cons, sn_get_cons, ih]
+      have e1 : dst ++ x ≠ q := by
+        intro e; exact h2 ⟨x, e⟩
+      have e2 : k ≠ q := by
+        intro e; rw [e] at hx; exact h1 ⟨x, hx.symm⟩
+      simp [e1, e2]
+
+theorem sn_prefix_append_cases {a b x : PPath} (h : a <+: b ++ x) : a <+: b ∨ b <+: a :=
+  List.prefix_or_prefix_of_prefix h (List.prefix_append _ _)
+
+/-- no name below the source stays bound -/
+theorem sn_renameDir_src_gone (fs : FS) (src dst q : PPath) (h1 : ¬ src <+: dst) (h2 : ¬ dst <+: src)
+    (hq : src <+: q) : (fs.renameDir src dst).get q = none := by
+  rw [sn_renameDir_eq, sn_get_map]
+  intro e _ heq
+  rcases sn_snRekey_key src dst e with ⟨hn, he⟩ | ⟨x, _, he⟩
+  · rw [he] at heq; rw [heq] at hn; exact hn hq
+  · rw [he] at heq
+    simp only at heq
+    rw [← heq] at hq
+    rcases sn_prefix_append_cases hq with h | h
+    · exact h1 h
+    · exact h2 h
+
+/-- every binding after the rename is an old one outside the source, or a re-keyed one -/
+theorem sn_renameDir_get {fs : FS} {src dst q : PPath} {n : Node}
+    (h : (fs.renameDir src dst).get q = some n) :
+    (¬ src <+: q ∧ (q, n) ∈ fs) ∨ ∃ x, q = dst ++ x ∧ (src ++ x, n) ∈ fs := by
+  have hm := get_mem h
+  rw [sn_renameDir_eq, List.mem_map] at hm
+  obtain ⟨e, he, heq⟩ := hm
+  rcases sn_snRekey_key src dst e with ⟨hn, hk⟩ | ⟨x, hx, hk⟩
+  · rw [hk] at heq
+    subst heq
+    exact Or.inl ⟨hn, he⟩
+  · rw [hk] at heq
+    obtain ⟨k, m⟩ := e
+    simp only at hx heq
+    cases heq
+    exact Or.inr ⟨x, rfl, by rw [← hx]; exact he⟩
+
+/-- with nothing bound at or below the destination, the subtree is moved as it is -/
+theorem sn_renameDir_moved (fs : FS) (src dst x : PPath)
+    (hfree : ∀ e ∈ fs, ¬ dst <+: e.1) : (fs.renameDir src dst).get (dst ++ x) = fs.get (src ++ x) := by
+  rw [sn_renameDir_eq]
+  induction fs with
+  | nil => rfl
+  | cons e r ih =>
+    have ih' := ih (fun e he => hfree e (List.mem_cons_of_mem _ he))
+    have hfe := hfree e (by simp)
+    rw [List.map_cons]
+    rcases sn_snRekey_key src dst e with ⟨hn, he⟩ | ⟨y, hy, he⟩
+    · rw [he]
+      obtain ⟨k, n⟩ := e
+      rw [sn_get_cons, sn_get_cons, ih']
+      have e1 : k ≠ dst ++ x := by
+        intro e; apply hfe; simp only; rw [e]; exact List.prefix_append _ _
+      have e2 : k ≠ src ++ x := by
+        intro e; apply hn; simp only; rw [e]; exact List.prefix_append _ _
+      simp [e1, e2]
+    · rw [he]
+      obtain ⟨k, n⟩ := e
+      simp only at hy
+      rw [sn_get_cons, sn_get_cons, ih']
+      by_cases hxy : y = x
+      · subst hxy; simp [hy]
+      · have e1 : dst ++ y ≠ dst ++ x := by
+          intro e; exact hxy (List.append_cancel_left e)
+        have e2 : k ≠ src ++ x := by
+          intro e; rw [hy] at e; exact hxy (List.append_cancel_left e)
+        simp [e1, e2]
+
+/-! ## `ensurePrepared` in normal form -/
+
+/-- the ignore rules of the fetched package -/
+def snRules (fs : FS) (work : Str) : List Rule :=
+  match fs.readFile (pathJoin work ".terraformignore".toList) with
+  | .ok content => readRules content
+  | .error _ => defaultRules
+
+/-- hash, then rename (or drop the work directory when the final name exists) -/
+def snFinish (fs1 : FS) (work final : Str) : FS × EnsureRes :=
+  match fs1.resolvePath work true with
+  | .error _ => (fs1, .fail)
+  | .ok wp =>
+    if !hashable fs1 wp then (fs1, .fail)
+    else
+      match fs1.lstat final with
+      | .ok (.dir _ _) => (fs1.removeAll work, .ok (pathSegs final))
+      | _ => (fs1.renameDir wp (pathSegs final), .ok (pathSegs final))
+
+theorem ensurePrepared_eq (fs : FS) (work final : Str) :
+    ensurePrepared fs work final =
+      match fs.lstat work with
+      | .error _ => (fs, .fail)
+      | .ok n =>
+        match prepWalk (snRules fs work) work prepFuel fs work n with
+        | (fs1, .fail) => (fs1, .fail)
+        | (fs1, .diverged) => (fs1, .diverged)
+        | (fs1, _) => snFinish fs1 work final := by
+  unfold ensurePrepared snRules
+  cases fs.readFile (pathJoin work ".terraformignore".toList) with
+  | ok c =>
+    simp only
+    cases fs.lstat work with
+    | error e => rfl
+    | ok n =>
+      simp only
+      generalize prepWalk (readRules c) work prepFuel fs work n = x
+      obtain ⟨fs1, r⟩ := x
+      cases r <;> rfl
+  | error e =>
+    cases e <;> simp only <;>
+    (cases fs.lstat work with
+     | error e => rfl
+     | ok n =>
+       simp only
+       generalize prepWalk defaultRules work prepFuel fs work n = x
+       obtain ⟨fs1, r⟩ := x
+       cases r <;> rfl)
+
+theorem sn_finish_ok {fs1 : FS} {work final : Str} {fs' : FS} {d : PPath}
+    (h : snFinish fs1 work final = (fs', .ok d)) :
+    ∃ wp, fs1.resolvePath work true = .ok wp ∧ hashable fs1 wp = true ∧ d = pathSegs final ∧
+      (fs' = fs1.removeAll work ∨ fs' = fs1.renameDir wp (pathSegs final)) := by
+  unfold snFinish at h
+  split at h
+  · cases h
+  · rename_i wp hwp
+    split at h
+    · cases h
+    · rename_i hh
+      have hh' : hashable fs1 wp = true := by simpa using hh
+      split at h
+      · cases h; exact ⟨wp, hwp, hh', rfl, Or.inl rfl⟩
+      · cases h; exact ⟨wp, hwp, hh', rfl, Or.inr rfl⟩
+
+theorem sn_finish_fst (fs1 : FS) (work final : Str) :
+    (snFinish fs1 work final).1 = fs1 ∨ (snFinish fs1 work final).1 = fs1.removeAll work ∨
+    ∃ wp, fs1.resolvePath work true = .ok wp ∧
+      (snFinish fs1 work final).1 = fs1.renameDir wp (pathSegs final) := by
+  unfold snFinish
+  split
+  · exact Or.inl rfl
+  · rename_i wp hwp
+    split
+    · exact Or.inl rfl
+    · split
+      · exact Or.inr (Or.inl rfl)
+      · exact Or.inr (Or.inr ⟨wp, hwp, rfl⟩)
+
+theorem sn_ensure_ok {fs : FS} {work final : Str} {fs' : FS} {d : PPath}
+    (h : ensurePrepared fs work final = (fs', .ok d)) :
+    ∃ n fs1 r, fs.lstat work = .ok n ∧
+      prepWalk (snRules fs work) work prepFuel fs work n = (fs1, r) ∧ (r = .cont ∨ r = .skipDir) ∧
+      snFinish fs1 work final = (fs', .ok d) := by
+  rw [ensurePrepared_eq] at h
+  split at h
+  · cases h
+  · rename_i n hn
+    generalize hx : prepWalk (snRules fs work) work prepFuel fs work n = x at h
+    obtain ⟨fs1, r⟩ := x
+    cases r with
+    | fail => cases h
+    | diverged => cases h
+    | cont => exact ⟨n, fs1, .cont, hn, hx, Or.inl rfl, h⟩
+    | skipDir => exact ⟨n, fs1, .skipDir, hn, hx, Or.inr rfl, h⟩
+
+theorem sn_ensure_fst (fs : FS) (work final : Str) :
+    (ensurePrepared fs work final).1 = fs ∨
+    ∃ n, fs.lstat work = .ok n ∧
+      ((ensurePrepared fs work final).1 = (prepWalk (snRules fs work) work prepFuel fs work n).1 ∨
+       (ensurePrepared fs work final).1 =
+         (snFinish (prepWalk (snRules fs work) work prepFuel fs work n).1 work final).1) := by
+  rw [ensurePrepared_eq]
+  split
+  · exact Or.inl rfl
+  · rename_i n hn
+    right
+    refine ⟨n, hn, ?_⟩
+    generalize prepWalk (snRules fs work) work prepFuel fs work n = x
+    obtain ⟨fs1, r⟩ := x
+    cases r with
+    | fail => exact Or.inl rfl
+    | diverged => exact Or.inl rfl
+    | cont => exact Or.inr rfl
+    | skipDir => exact Or.inr rfl
 
 end Slug
